@@ -395,3 +395,65 @@ def fmt_conds(conds):
 
 def body_line(e):
     return e.src
+
+
+def paths_within(body, region, target, limit=5000):
+    """acyclic paths that stay inside `region`, from the region's entry blocks to block `target`"""
+    entries = sorted({e.dst for e in body.edges if e.dst in region and e.src not in region})
+    out = []
+
+    def walk(bb, path, seen):
+        if bb == target:
+            out.append(list(path))
+            if len(out) > limit:
+                raise AnchorLost(f"analysis bound exceeded: more than {limit} paths inside a handler of {short(body.name)}")
+            return
+        for e in body.succ.get(bb, ()):
+            if e.dst not in region or e.dst in seen:
+                continue
+            path.append(e)
+            seen.add(e.dst)
+            walk(e.dst, path, seen)
+            seen.discard(e.dst)
+            path.pop()
+
+    for en in entries:
+        walk(en, [], {en})
+    return out
+
+
+def decisions_to(body, region, target, allowed):
+    """bool decisions taken on some path (inside `region`) to `target` that are not in `allowed`: [(edge, descs, polarity)].
+    Path based, so a target reached through the else-branch of `A && B` sees both decisions (dominance would see none)."""
+    bad = {}
+    for p in paths_within(body, region, target):
+        # discard infeasible paths: the same (once-assigned) bool local taken with both polarities, e.g. `if inserted && a {..} if inserted && b {..}`
+        seen_pol = {}
+        feasible = True
+        for e in p:
+            l = e.label
+            if l and l[0] == "bool" and l[2] is not None:
+                src = _bool_source_local(body, l[2])
+                if src in seen_pol and seen_pol[src] != l[1]:
+                    feasible = False
+                    break
+                seen_pol[src] = l[1]
+        if not feasible:
+            continue
+        for e in p:
+            l = e.label
+            if l and l[0] == "bool" and l[2] is not None:
+                descs = bool_atom_desc(body, l[2])
+                if conditions_within([(e, descs, l[1])], allowed):
+                    bad[(e.src, e.dst)] = (e, descs, l[1])
+    return list(bad.values())
+
+
+def _bool_source_local(body, l, depth=0):
+    """the local a switched temporary is a plain copy of (so that two tests of one variable are recognised as the same decision)"""
+    defs = body.prov.defs.get(l, ())
+    if depth < 6 and len(defs) == 1 and defs[0][0] == "assign":
+        rv = defs[0][1]["rv"]
+        if rv["k"] == "use" and rv["op"]["k"] in ("copy", "move") and not rv["op"]["place"]["proj"]:
+            return _bool_source_local(body, rv["op"]["place"]["local"], depth + 1)
+    return l
